@@ -716,6 +716,8 @@ def check(run) -> None:
         for f in o["fails"]:
             run.fail(f["clause"], f["sig"], {"seed": a[0], "i": a[1]}, f["msg"], replay={"family": "garbage", "args": list(a)})
     run.ok("Garbage.accepted_and_within_limits", nacc)
+    from . import c13_llm
+    c13_llm.check(run)
     run.assumptions += [
         "thresholds are those carried by the bundle (documented defaults 0.8/0.4/0.10 when the bundle has no policy block); run_turn cases use the bundle run_turn built",
         "token = whitespace-separated token (str.split), as documented for the dialogue budget",
@@ -728,6 +730,18 @@ def check(run) -> None:
 
 def replay(rep) -> int:
     r = rep["replay"]
+    if "filter_turn" in r or "planner_guard" in r:
+        from . import c13_llm
+        os.makedirs("/verif/.work/C13_replay", exist_ok=True)
+        fails = (c13_llm.filter_turn_case(dict(r["filter_turn"], workdir="/verif/.work/C13_replay")) if "filter_turn" in r
+                 else c13_llm.planner_guard_case(r["planner_guard"]))
+        for cl, msg in fails:
+            print(f"{cl}: {msg}")
+        if fails:
+            print(f"VIOLATION property=C13 replay={rep.get('_path', '?')}")
+            return 1
+        print("replay: conforms")
+        return 0
     fam = r["family"]
     if fam == "San":
         res = c13_san.replay_san((r["case"], r.get("nvar", 3)))
